@@ -25,9 +25,10 @@ from ..oracles import sph
 
 PROPERTY = "C08"
 RULE = (
-    "Hypothesis cases. values/addition/solid/mp: l_max drawn 0..12 in 70 % of the cases, 13..60 in 20 %, 61..200 "
-    "(quick) or ..400 (thorough) in 10 %; mp: l_max 0..40 (thorough 0..60) at 1-3 points; deriv: l_max 0..12 "
-    "(thorough 0..30). Every point = azimuth (any real in [-20,20] or a special value 0, +-pi, 2pi, +-20, 1e-12 ...) "
+    "Hypothesis cases. values/addition: l_max drawn from the branches 0..12 : 13..60 : 61..200 (quick) or ..400 (thorough) "
+    "with strategy weights 7:2:1 (measured shares in the class histogram), 1..12 / 6 / 3 points per case; mp: l_max 0..40 "
+    "(thorough 0..60) at 1-3 points; deriv: l_max 0..12 (thorough 0..30), 1-4 points; solid: l_max 0..12 (thorough 0..40), r in "
+    "{0, 1e-8, 1e-3, 1, 50, 1e3} or uniform (0,5). Every point = azimuth (any real in [-20,20] or a special value 0, +-pi, 2pi, +-20, 1e-12 ...) "
     "and polar angle = base (generic in [0,pi] | north pole + d | south pole - d | equator +- d with d in "
     "{0,1e-15,1e-12,1e-9,1e-6,1e-3} or uniform) + 2 pi k, k in -3..3. cart2sph: points built as centre + r u or raw "
     "coordinates incl. the centre itself, the +-z axis through the centre, the xy-plane and the negative x axis. "
